@@ -209,7 +209,7 @@ def _through_private_helpers(ctx, called, depth=0):
     for q in called:
         fn = ctx.model.funcs.get(q)
         nm = q.rsplit(".", 1)[-1]
-        if fn is not None and depth < 3 and q not in ISOMETRY_INVARIANT and nm.startswith("_") \
+        if fn is not None and depth < 3 and q not in ISOMETRY_INVARIANT \
                 and not (nm.startswith("__") and nm.endswith("__")) and nm not in KNOWN:
             inf = ctx.typer.of(fn)
             inner = {t.qname for x in ast.walk(fn.node) for t in inf.targets(x)}
